@@ -583,14 +583,33 @@ func (g *instGen) mutate(in *instance, kind string, app, tr *datadictionary.Data
 		return planted{kind, f.tag, "-"}, true
 	case "bad_enum":
 		ps := in.positions(func(u *unit, f *wfield, p fpos) bool {
-			return f.ft != nil && len(f.ft.Enums) > 0 && !isMultiType(f.ft.Type)
+			return f.ft != nil && len(f.ft.Enums) > 0 && f.tag != 35 && !f.counter
 		})
 		if len(ps) == 0 {
 			return planted{}, false
 		}
 		f := in.at(ps[r.intn(len(ps))])
+		if mps := in.positions(func(u *unit, f *wfield, p fpos) bool {
+			return f.ft != nil && len(f.ft.Enums) > 0 && isMultiType(f.ft.Type)
+		}); len(mps) > 0 && r.chance(1, 2) {
+			f = in.at(mps[r.intn(len(mps))])
+		}
 		for _, cand := range []string{"~~", "~", "#9"} {
 			if _, ok := f.ft.Enums[cand]; !ok {
+				if isMultiType(f.ft.Type) && r.chance(2, 3) {
+					// a multiple-value field: one declared token and one undeclared token
+					es := sortedEnums(f.ft)
+					d := es[r.intn(len(es))]
+					if strings.Contains(d, " ") {
+						d = cand
+					}
+					if r.chance(1, 2) {
+						f.val = d + " " + cand
+					} else {
+						f.val = cand + " " + d
+					}
+					return planted{kind, f.tag, "multi"}, true
+				}
 				f.val = cand
 				return planted{kind, f.tag, "-"}, true
 			}
